@@ -128,7 +128,17 @@ func c13Emitted(e Ev) {
 		e["section"] = B(s.UpdateData())
 	case "pmt":
 		pmt := randPMT(r, 1+r.Intn(8), false)
-		pl := c06Payload(0, nil, pmtSection(pmt), 0)
+		sec := pmtSection(pmt)
+		variant := r.Intn(4)
+		switch variant {
+		case 1: // the incoming section carries a wrong CRC_32 (the library does not verify it): the emitted one must be right
+			sec[len(sec)-1-r.Intn(4)] ^= byte(1 + r.Intn(255))
+		case 2: // the two bits in front of the 10 significant length bits are set on input (CRC computed over that)
+			sec[1] |= 0x0c
+			c := gots.ComputeCRC(sec[:len(sec)-4])
+			copy(sec[len(sec)-4:], c)
+		}
+		pl := c06Payload(0, nil, sec, 0)
 		pk := packetise(r, pl, splitSizes(len(pl), minInt(len(pl), 1+r.Intn(184))), 0x100, r.Intn(2) == 0)
 		in := make([]*packet.Packet, len(pk))
 		for i := range pk {
@@ -136,8 +146,8 @@ func c13Emitted(e Ev) {
 		}
 		var keep []int
 		for _, st := range pmt.Streams {
-			if r.Intn(2) == 0 {
-				keep = append(keep, st.Pid)
+			if r.Intn(2) == 0 || variant != 0 && r.Intn(2) == 0 || variant == 3 {
+				keep = append(keep, st.Pid) // variant 3: every stream is kept (nothing to drop)
 			}
 		}
 		if len(keep) == 0 {
